@@ -191,6 +191,7 @@ def run_task(task):
         if len(fns) != 1: raise Unsupported('trait default method %s: %d candidates' % (name, len(fns)))
         return fns[0]
     f_ct = trait_default('contains_tuple'); f_ca = trait_default('contains_anonymous_component')
+    build = pr.find('build_basic_blocks', crate='structure'); envnew = pr.method(None, 'LiftingEnvironment', 'new')
 
     def entry(ex):
         k = ex.concretize(idx, task['lo'], task['hi'] - 1)
@@ -203,6 +204,12 @@ def run_task(task):
         ca = ex.call_mir(f_ca, [Ref([st], 0), none()])
         # precondition of remove_tuples_from_statement: anonymous components have been expanded before (remove_syntactic_sugar)
         res = ex.call_mir(rm, [clone_val(st)]) if sugar == 'tuple' else None
+        if res is not None and res.var == 'Ok' and not walk_has(res.f[0], 'Tuple'):
+            # what the analysis does next with a desugared body: the real CFG / IR lifter must not reach one of its catch-all panics
+            body = clone_val(res.f[0])
+            if deref(body).var != 'Block': body = ir.E(S, 'Block', meta=b.meta(), stmts=VecV([body]))
+            env = ex.call_mir(envnew, [])
+            ex.call_mir(build, [Ref([body], 0), Ref([env], 0), Ref([VecV([])], 0)])
         return has_t, has_a, ct, ca, res
 
     def post(ex, out):
